@@ -1,15 +1,18 @@
 """C02 - per-file history and last-changed revisions are recorded correctly.
 
 Generated multi-branch histories (criss-cross, identical parallel changes, merge-then-revert,
-cherry-picks, ghosts, resurrected ids, kind changes, renames) are committed with the real
-code in 2a / pack-0.92 / rich-root-pack repositories.  Afterwards every revision of every
+cherry-picks, ghosts, resurrected ids, kind changes, renames, octopus merges of sibling branches
+(>= 3 parents, two merged parents holding the same per-file version), genuine changes made in the
+merge tree to directories / files whose versions differ among the pending parents) are committed
+with the real code in 2a / pack-0.92 / rich-root-pack repositories.  Afterwards every revision of every
 repository is replayed through a small per-file-graph model (plain set algebra over the
 revision parents read back from the repository and the entries of the committed trees):
 
   C = versions of file id f in the (non-ghost) parent trees of R, H = heads of C in the
   model's per-file graph.  |H| = 1 and R's entry (kind, name, parent id, exec, text sha /
   link target) equals the entry of that head  =>  last-changed(R, f) = H[0], no new text key;
-  otherwise last-changed = R and texts parents of (f, R) = H (compared as a set).
+  otherwise last-changed = R and texts parents of (f, R) = H (compared as a set, and naming no
+  version twice).
 
 Observed through RevisionTree.get_file_revision, Repository.texts.get_parent_map / keys and
 Repository.check().
@@ -21,24 +24,28 @@ LEVEL = "exploration"
 TECHNIQUE = "per-file-graph reference model (set algebra) replayed over every committed revision; repository check() as second oracle"
 LEVEL_TEXT = ("held on the generated histories: every (revision, file id) entry of every repository was compared with the model's "
               "last-changed revision and text parents; no claim for history shapes the generator does not produce")
-RULE = ("case = one generated history (quick <= 8 revisions, thorough <= 24; up to 3 standalone branches; formats 2a, pack-0.92, "
-        "rich-root-pack) built from: commit of a random tree delta, branch (tip or older), merge (tip or older revision) followed by "
-        "nothing / edits / revert-to-this of some paths / revert-to-older-version, criss-cross, identical parallel change, cherry-pick, "
-        "ghost pending merge, resurrected file id; one evaluation = one (repository, revision, file id) entry judged; "
+RULE = ("case = one generated history (quick <= ~10 revisions, thorough <= ~26; up to 3 standalone branches + 1 sibling; formats 2a, "
+        "pack-0.92, rich-root-pack) built from: commit of a random tree delta (+ directory rename), branch (tip or older), merge (tip or "
+        "older revision) followed by nothing / edits / revert-to-this of some paths / revert-to-older-version / rename-move-chmod-edit of "
+        "entries whose versions differ among the pending parents (directories first), criss-cross, identical parallel change "
+        "(content, chmod, rename), cherry-pick, octopus merge (two branches merged in one commit; the second usually a sibling sprouted "
+        "from the first, both with later commits), ghost pending merge, resurrected file id; one evaluation = one (repository, revision, file id) entry judged; "
         "non-trivial = the entry has >= 2 distinct candidate versions or is a new version; distinct = (shape of candidates, heads, decision)")
-CASES = {"quick": 80, "thorough": 1500}
+CASES = {"quick": 120, "thorough": 1500}
 BUDGET_S = {"quick": 30, "thorough": 780}
 MIN_EVALS = {"quick": 400, "thorough": 20000}
-FLOORS = {"quick": {"last_changed": 400, "text_parents": 60, "carry_over": 100, "two_heads": 3, "repo_check": 8},
+FLOORS = {"quick": {"last_changed": 400, "text_parents": 60, "carry_over": 100, "two_heads": 3, "repo_check": 8,
+                    "octopus_entry": 80, "octopus_shared_nonbasis_version": 12, "dir_new_version_over_nonhead_candidate": 10},
           "thorough": {"last_changed": 20000, "text_parents": 3000, "carry_over": 5000, "two_heads": 100, "repo_check": 300,
-                       "carry_from_nonbasis": 20, "revert_shape_new_version": 10}}
+                       "carry_from_nonbasis": 20, "revert_shape_new_version": 10,
+                       "octopus_entry": 3000, "octopus_shared_nonbasis_version": 500, "dir_new_version_over_nonhead_candidate": 400}}
 EXHAUSTIVE = {"quick": False, "thorough": False}
 ASSUMPTIONS = [
     "the committed tree (entries read back through RevisionTree) is taken as given: whether it equals the working tree is C01's question",
     "heads are taken in the per-file graph (what PackCommitBuilder._heads and check() both use); ghost parents contribute no candidates",
     "non-rich-root formats: the root entry is not judged (it has no text key and is restamped by every commit)",
     "text parents are compared as sets (order is judged only indirectly, by Repository.check())",
-    "histories are bounded (<= 24 revisions, <= 3 branches, <= ~25 file ids)",
+    "histories are bounded (<= ~26 revisions, <= 4 branches, <= ~30 file ids, <= 3 parents per revision plus ghosts)",
 ]
 
 FORMATS = ["2a", "pack-0.92", "2a", "rich-root-pack"]
@@ -183,6 +190,14 @@ def judge_repo(ctx, repo, hist, where):
                 shape = (ie.kind, len(live), len(cands), len(heads), "new" if new else "carry",
                          "basis" if (not new and live and m.ver[live[0]].get(fid) == exp) else "other")
                 nontrivial = new or len(cands) > 1
+                if len(live) >= 3:
+                    ctx.count("octopus_entry")
+                    pv = [m.ver[p].get(fid) for p in live]
+                    if any(v is not None and v != pv[0] and pv[1:].count(v) > 1 for v in pv[1:]):
+                        # two merged parents hold the same version, the basis another one (or none)
+                        ctx.count("octopus_shared_nonbasis_version")
+                if new and ie.kind == "directory" and len(live) >= 2 and len(cands) > len(heads):
+                    ctx.count("dir_new_version_over_nonhead_candidate")
                 detail = None
                 if got != exp:
                     detail = {"where": where, "format": hist.fmt, "revision": r.decode(), "file_id": fid.decode("utf-8", "replace"),
@@ -236,6 +251,12 @@ def judge_repo(ctx, repo, hist, where):
                                  {"where": where, "format": hist.fmt, "revision": r.decode(), "path": path, "kind": ie.kind})
                         return False
                     gotp = frozenset(k[1] for k in pm[key])
+                    if len(gotp) != len(pm[key]):
+                        ok = False
+                        ctx.fail("text-parents:duplicate", "%r in %s: text parents %r name a version twice" % (path, r, pm[key]),
+                                 {"where": where, "format": hist.fmt, "revision": r.decode(), "path": path, "kind": ie.kind,
+                                  "revision_parents": [p.decode() for p in parents[r]], "shapes": hist.shapes, "log": hist.log[-40:]})
+                        return False
                     if gotp != exp_par:
                         ok = False
                         if exp_par < gotp:
@@ -274,9 +295,9 @@ def case(ctx):
 
     rng = ctx.rng
     fmt = FORMATS[ctx.index % len(FORMATS)]
-    nrevs = rng.randint(5, 8) if ctx.tier == "quick" else rng.randint(8, 24)
+    nrevs = rng.randint(5, 9) if ctx.tier == "quick" else rng.randint(8, 24)
     try:
-        hist = H.build(ctx, rng, fmt, nrevs=nrevs, tier=ctx.tier, light=False, ghosts=True, nbranches=3)
+        hist = H.build(ctx, rng, fmt, nrevs=nrevs, tier=ctx.tier, light=False, ghosts=True, nbranches=3, extra=True)
     except BaseException as e:  # workload construction is not what C02 judges
         if isinstance(e, (KeyboardInterrupt, SystemExit)):
             raise
